@@ -35,12 +35,14 @@ class FakeSocket:
         self.reads = 0
         self.sent: t.List[bytes] = []
         self.closed = False
-        self.timeout: t.Any = "unset"
+        # what a real socket starts with: the process-wide default timeout (socket.setdefaulttimeout), None = blocking
+        self.timeout: t.Any = socket.getdefaulttimeout()
 
     # -- writes
     def sendall(self, data: t.Any, flags: int = 0) -> None:
         b = bytes(data)
         self.sent.append(b)
+        self._reads_since_send = 0
         for c in self.conn.feed(b):
             self.chunks.extend(c if isinstance(c, tuple) else [c])
 
@@ -56,6 +58,11 @@ class FakeSocket:
         if not self.chunks:
             raise BlocksForever(f"read #{self.reads} with nothing in flight")
         head = self.chunks[0]
+        # a socket that was left with a finite timeout (e.g. the process-wide default) gives up when the NEXT segment of a reply takes
+        # longer than that - which the network is always free to do; only a blocking socket (timeout None) waits for it
+        self._reads_since_send = getattr(self, "_reads_since_send", 0) + 1
+        if self._reads_since_send > 1 and isinstance(self.timeout, (int, float)) and not isinstance(self.timeout, bool) and head is not None and not isinstance(head, BaseException):
+            raise socket.timeout("timed out")
         if isinstance(head, BaseException):  # the kernel reports an error for this read (timeout, reset): raised once, EOF afterwards
             self.chunks[0] = None
             raise head
